@@ -1399,6 +1399,12 @@ func (e *Engine) checkReturnAsserts(fc *fnCtx, st *State, ret *ssa.Return) {
 			}
 			env.vars[k] = v
 		}
+		var rvals []Val
+		for _, r := range ret.Results {
+			rvals = append(rvals, e.dataVal(e.val(fc, r)))
+		}
+		env.bindResults(fc.fn.Signature, rvals)
+		env.curBlock = ret.Block()
 		e.addObl(fc.fn, "assert", "["+key+"] "+cl.Text, ret.Pos(), st.Reach, e.trSpec(env, cl.E).T)
 	}
 }
